@@ -346,6 +346,52 @@ func RuleDStateAllPaths(c *core.Ctx) {
 		default:
 			c.Ob(rule, key, fn.Pos(), core.FuncName(fn), core.Discharged, "every day receives the normalized prices (carried forward on days without price directives)")
 		}
+		// the refresh: the call to Prices.Normalize is control-dependent only on `len(d.Prices) > 0`
+		prices := p.Field(pkgJournal, "Day", "Prices")
+		core.EachInstr(fn, func(ins ssa.Instruction) {
+			call, ok := ins.(*ssa.Call)
+			if !ok || call.Call.StaticCallee() == nil || originName(call.Call.StaticCallee()) != "(lib/model/price.Prices).Normalize" {
+				return
+			}
+			k3 := core.FuncName(fn) + ":prices re-normalized on every day with price directives"
+			bad := ""
+			lenTest := false
+			for _, b := range fn.Blocks {
+				iff, isIf := b.Instrs[len(b.Instrs)-1].(*ssa.If)
+				if !isIf {
+					continue
+				}
+				if ctl, _ := core.Controls(b, call.Block()); !ctl {
+					continue
+				}
+				isLen := false
+				if bo, ok := iff.Cond.(*ssa.BinOp); ok {
+					for _, side := range []ssa.Value{bo.X, bo.Y} {
+						if lc, ok := side.(*ssa.Call); ok {
+							if bi, ok := lc.Call.Value.(*ssa.Builtin); ok && bi.Name() == "len" {
+								for v := range originSet(p, lc.Call.Args[0], 0) {
+									if fa, ok := v.(*ssa.FieldAddr); ok && core.FieldOf(fa) == prices {
+										isLen = true
+									}
+								}
+							}
+						}
+					}
+				}
+				if isLen {
+					lenTest = true
+				} else {
+					bad = describeValue(p, iff.Cond) + " at " + p.Pos(core.NearPos(iff))
+				}
+			}
+			if bad != "" {
+				c.Ob(rule, k3, call.Pos(), core.FuncName(fn), core.Violated, "the re-normalization of the prices depends on a condition other than `the day has price directives` ("+bad+"): a day's new price may not take effect")
+			} else if lenTest {
+				c.Ob(rule, k3, call.Pos(), core.FuncName(fn), core.Discharged, "Normalize runs exactly when the day has price directives")
+			} else {
+				c.Ob(rule, k3, call.Pos(), core.FuncName(fn), core.Discharged, "Normalize runs on every day")
+			}
+		})
 		// the stored value: the captured `previous`, which is refreshed from Normalize
 		stored := false
 		core.EachInstr(fn, func(ins ssa.Instruction) {
@@ -969,4 +1015,100 @@ func partialUse(p *core.Prog, v ssa.Value, seen map[ssa.Value]bool) string {
 		}
 	}
 	return ""
+}
+
+// RuleKBfs — the price graph is traversed breadth-first from the valuation
+// commodity, so that a directly declared price takes precedence over a
+// derived one: the function that fills the normalized prices is not recursive
+// and takes the next commodity from the front of the slice it appends to.
+func RuleKBfs(c *core.Ctx) {
+	const rule = "K-bfs"
+	p := c.P
+	npT := p.NamedType(pkgPrice, "NormalizedPrices")
+	normalize := p.Func(pkgPrice, "Prices.Normalize")
+	if npT == nil || normalize == nil {
+		c.Anchor(rule, "price.Prices.Normalize / NormalizedPrices")
+		return
+	}
+	// functions (reachable from Normalize within the package) that store into a NormalizedPrices map
+	var writers []*ssa.Function
+	seen := map[*ssa.Function]bool{}
+	var visit func(fn *ssa.Function)
+	visit = func(fn *ssa.Function) {
+		if seen[fn] || fn.Blocks == nil || core.PkgPathOf(fn) != pkgPrice {
+			return
+		}
+		seen[fn] = true
+		writes := false
+		core.EachInstr(fn, func(ins ssa.Instruction) {
+			switch x := ins.(type) {
+			case *ssa.MapUpdate:
+				if isNamed(x.Map.Type(), npT) {
+					writes = true
+				}
+			case ssa.CallInstruction:
+				if callee := x.Common().StaticCallee(); callee != nil {
+					visit(callee)
+				}
+			}
+		})
+		if writes {
+			writers = append(writers, fn)
+		}
+	}
+	visit(normalize)
+	for _, w := range writers {
+		key := core.FuncName(w) + ":traversal is not recursive"
+		// can w reach itself?
+		rec := false
+		r := map[*ssa.Function]bool{}
+		var walk func(f *ssa.Function)
+		walk = func(f *ssa.Function) {
+			core.EachInstr(f, func(ins ssa.Instruction) {
+				if call, ok := ins.(ssa.CallInstruction); ok {
+					if callee := call.Common().StaticCallee(); callee != nil && core.PkgPathOf(callee) == pkgPrice && !r[callee] {
+						r[callee] = true
+						walk(callee)
+					}
+				}
+			})
+		}
+		walk(w)
+		rec = r[w]
+		if rec {
+			c.Ob(rule, key, w.Pos(), core.FuncName(w), core.Violated, "the price graph is traversed recursively (depth-first): a commodity can receive a price derived through a chain although a price against the valuation commodity is declared directly")
+			continue
+		}
+		c.Ob(rule, key, w.Pos(), core.FuncName(w), core.Discharged, "iterative traversal")
+		// FIFO: an element is taken at constant index 0 from a slice that is also appended to and resliced from 1
+		front, resliced, appended := false, false, false
+		core.EachInstr(w, func(ins ssa.Instruction) {
+			switch x := ins.(type) {
+			case *ssa.IndexAddr:
+				if k, ok := core.ConstInt(x.Index); ok && k == 0 {
+					if _, isPhi := x.X.(*ssa.Phi); isPhi {
+						front = true
+					}
+				}
+			case *ssa.Slice:
+				if k, ok := core.ConstInt(x.Low); ok && k == 1 && x.High == nil {
+					resliced = true
+				}
+			case *ssa.Call:
+				if b, ok := x.Call.Value.(*ssa.Builtin); ok && b.Name() == "append" {
+					appended = true
+				}
+			}
+		})
+		k2 := core.FuncName(w) + ":frontier is a FIFO queue"
+		if front && resliced && appended {
+			c.Ob(rule, k2, w.Pos(), core.FuncName(w), core.Discharged, "next commodity = queue[0]; queue = queue[1:]; newly priced commodities are appended")
+		} else {
+			c.Ob(rule, k2, w.Pos(), core.FuncName(w), core.Violated, "the frontier of the traversal is not consumed first-in-first-out: prices are not assigned in order of distance from the valuation commodity")
+		}
+	}
+	if len(writers) == 0 {
+		c.Ob(rule, "price.Prices.Normalize:writer", normalize.Pos(), core.FuncName(normalize), core.Undecided, "no function reachable from Normalize stores into a NormalizedPrices map")
+	}
+	c.Floor(rule, 1)
 }
